@@ -499,7 +499,11 @@ type textCases struct {
 }
 
 func newTextCases(prop, out string, sum *Summary) *textCases {
-	return &textCases{sh: &Shards{dir: out, prop: prop, imports: "Checks.Spec", ctype: "bcase", runner: "basic_run", per: 300, n: 500}, sum: sum, id: 900000}
+	imports := map[string]string{"C12": "Checks.C12", "C05": "Checks.C05", "C04": "Checks.C04"}[prop]
+	if imports == "" {
+		imports = "Checks.Spec"
+	}
+	return &textCases{sh: &Shards{dir: out, prop: prop, imports: imports, ctype: "bcase", runner: "basic_run", per: 300, n: 500}, sum: sum, id: 900000}
 }
 
 func (t *textCases) add(expr string, doc any, o Obs) {
